@@ -1,11 +1,12 @@
 SPECIFICATION Spec
 CONSTANTS
-  MaxN = 4
-  FullN = 2
-  TypedN = 3
+  MaxN = 5
+  FullN = 3
+  TypedNs = {4}
   ClassNs = {4}
-  MonoNs = {}
-  PermAllN = 3
+  SaNs = {5}
+  MonoNs = {5}
+  PermAllN = 4
 INVARIANT InvDom
 INVARIANT InvCycles
 INVARIANT InvMinBasis
